@@ -43,6 +43,7 @@ func NewRun(R *vcommon.Report, prop string, k Knobs, caseIdx int, rng *rand.Rand
 	sort.Strings(r.prefixes)
 	r.fs = vfs.NewMem()
 	r.opts = MakeOptions(r.Cfg, r.fs, r.Ev)
+	r.attachFileCache()
 	r.opts.EnsureDefaults()
 	db, err := pebble.Open("db", r.opts)
 	if err != nil {
@@ -107,6 +108,17 @@ func (r *Run) finish() {
 	r.closeAll()
 }
 
+// attachFileCache gives the DB a tiny file cache when the configuration asks
+// for it (forces tables to be re-opened constantly).
+func (r *Run) attachFileCache() {
+	if r.Cfg.FileCacheSize > 0 {
+		if r.fileCache == nil {
+			r.fileCache = pebble.NewFileCache(1, r.Cfg.FileCacheSize)
+		}
+		r.opts.FileCache = r.fileCache
+	}
+}
+
 // closeAll closes every object and the DB; Close errors are violations (C47).
 func (r *Run) closeAll() {
 	if r.db == nil {
@@ -135,6 +147,10 @@ func (r *Run) closeAll() {
 		r.fail("close-error", "DB.Close: %v", err)
 	}
 	r.db = nil
+	if r.fileCache != nil {
+		r.fileCache.Unref()
+		r.fileCache = nil
+	}
 }
 
 // quiesce closes iterators, snapshots, EFOS and batches.
@@ -192,19 +208,35 @@ func (r *Run) oneStep() {
 		add(5, r.stepLongIter)
 	}
 	if r.K.Maint {
-		add(8, r.stepMaint)
+		if r.K.MaintHeavy {
+			add(22, r.stepMaint)
+		} else {
+			add(8, r.stepMaint)
+		}
 	}
 	if r.K.Reopen {
 		add(1, r.stepReopen)
 	}
 	if r.K.Ingest {
-		add(5, r.stepIngest)
+		if r.K.IngestHeavy {
+			add(18, r.stepIngest)
+		} else {
+			add(5, r.stepIngest)
+		}
 	}
 	if r.K.Excise {
-		add(2, r.stepExcise)
+		if r.K.IngestHeavy {
+			add(6, r.stepExcise)
+		} else {
+			add(2, r.stepExcise)
+		}
 	}
 	if r.K.EFOS {
-		add(3, r.stepEFOS)
+		if r.K.EFOSHeavy {
+			add(12, r.stepEFOS)
+		} else {
+			add(3, r.stepEFOS)
+		}
 	}
 	if r.K.Ratchet {
 		add(2, r.stepRatchet)
@@ -390,16 +422,11 @@ func (r *Run) stepBatch() {
 			r.fail("batch-read-mismatch", "batch NewIter: %v", err)
 			return
 		}
-		io := &iterObj{it: it, m: model.NewIter(r.overlay(bo), mo), desc: fmt.Sprintf("batch%d-iter%v", bo.id, mo), batch: bo, born: r.step, frozen: true}
+		io := &iterObj{it: it, m: model.NewIter(r.overlay(bo), mo), desc: fmt.Sprintf("batch%d-iter%v", bo.id, mo), batch: bo, base: r.M.Clone(), born: r.step, frozen: true}
 		r.iters = append(r.iters, io)
 		r.log("iter on batch%d %v", bo.id, mo)
 	case x < 18: // commit
-		for _, io := range r.iters {
-			if io.batch == bo {
-				// iterators over a batch must be closed before it is committed
-				r.closeIter(io)
-			}
-		}
+		r.closeBatchIters(bo) // iterators over a batch must be closed before it is committed
 		r.log("batch%d{%s} commit", bo.id, opsStr(bo.ops))
 		if err := bo.b.Commit(r.writeOpts()); err != nil {
 			r.fail("commit-error", "commit: %v", err)
@@ -410,11 +437,7 @@ func (r *Run) stepBatch() {
 		r.bats = append(r.bats[:i], r.bats[i+1:]...)
 		r.count("long_lived_batches_committed", 1)
 	case x < 19: // abandon
-		for _, io := range r.iters {
-			if io.batch == bo {
-				r.closeIter(io)
-			}
-		}
+		r.closeBatchIters(bo)
 		r.log("batch%d abandon", bo.id)
 		if err := bo.b.Close(); err != nil {
 			r.fail("batch-close-error", "%v", err)
@@ -434,6 +457,18 @@ func (r *Run) stepBatch() {
 		}
 		dst.ops = append(dst.ops, bo.ops...)
 		r.count("batch_apply_into_batch", 1)
+	}
+}
+
+func (r *Run) closeBatchIters(bo *batchObj) {
+	var victims []*iterObj
+	for _, io := range r.iters {
+		if io.batch == bo {
+			victims = append(victims, io)
+		}
+	}
+	for _, io := range victims {
+		r.closeIter(io)
 	}
 }
 
@@ -507,7 +542,20 @@ func (r *Run) stepLongIter() {
 	case x < 2:
 		r.log("long iter@%d close", io.born)
 		r.closeIter(io)
-	case x < 4:
+	case x < 3 && io.batch != nil:
+		// SetOptions refreshes the iterator's view of the batch (the DB part
+		// of the view stays pinned).
+		mo := r.randIterOpts()
+		r.log("iter@%d on batch%d SetOptions(%v) [refresh]", io.born, io.batch.id, mo)
+		io.it.SetOptions(r.toPebbleOpts(mo, false))
+		st := io.base.Clone()
+		st.ApplyBatch(io.batch.ops)
+		io.m.SetState(st)
+		io.m.SetOpts(mo)
+		io.desc = fmt.Sprintf("batch%d-iter%v(refreshed@%d)", io.batch.id, mo, r.step)
+		r.count("batch_view_refreshes", 1)
+		r.redrive(io, "after-refresh")
+	case x < 5:
 		// clone
 		if len(r.iters) >= 6 {
 			return
@@ -521,22 +569,18 @@ func (r *Run) stepLongIter() {
 		}
 		if io.batch != nil && r.rng.IntN(2) == 0 {
 			// The clone sees the batch as of now; the DB part of the view stays
-			// the one the original iterator pinned. We can only model that when
-			// the committed state did not change since the original was created,
-			// which the harness does not track: skip the refresh variant unless
-			// the batch iterator was created in this very step.
-			if io.born != r.step {
-				return
-			}
+			// the one the original iterator pinned at creation (io.base).
 			co.RefreshBatchView = true
-			st = r.overlay(io.batch)
+			st = io.base.Clone()
+			st.ApplyBatch(io.batch.ops)
+			r.count("batch_view_refreshes", 1)
 		}
 		c, err := io.it.Clone(co)
 		if err != nil {
 			r.fail("iterator-view-changed", "Clone: %v", err)
 			return
 		}
-		cio := &iterObj{it: c, m: model.NewIter(st, mo), desc: "clone-of-" + io.desc, batch: io.batch, born: io.born, frozen: true}
+		cio := &iterObj{it: c, m: model.NewIter(st, mo), desc: "clone-of-" + io.desc, batch: io.batch, base: io.base, born: io.born, frozen: true}
 		r.iters = append(r.iters, cio)
 		r.log("clone of iter@%d opts=%v", io.born, mo)
 		r.count("iterator_clones", 1)
@@ -566,7 +610,11 @@ func (r *Run) stepIterBurst() {
 		}
 	}
 	if it == nil {
-		it, err = r.db.NewIter(r.toPebbleOpts(mo, false))
+		useFilter := r.K.MaskFilterDiff && mo.MaskSuffix != "" && r.rng.IntN(2) == 0
+		if useFilter {
+			r.count("bursts_with_filter_mask", 1)
+		}
+		it, err = r.db.NewIter(r.toPebbleOpts(mo, useFilter))
 	}
 	if err != nil {
 		r.fail("iter-op-mismatch", "NewIter: %v", err)
@@ -641,7 +689,10 @@ func (r *Run) iterOps(io *iterObj, n int) {
 				ops = append(ops, "SeekGEWithLimit", "SeekLTWithLimit")
 			}
 		} else if m.InPrefixMode() {
-			ops = []string{"Next", "Next", "Next", "SeekPrefixGE", "SeekPrefixGE", "SeekGE", "First", "Last", "SeekLT", "NextPrefix"}
+			ops = []string{"Next", "Next", "Next", "SeekPrefixGE", "SeekPrefixGE", "SeekGE", "First", "Last", "SeekLT"}
+			if !upperHasSuffix() { // NextPrefix with a suffixed upper bound is a documented error
+				ops = append(ops, "NextPrefix")
+			}
 		} else {
 			ops = []string{"Next", "Next", "Next", "Next", "Prev", "Prev", "Prev", "SeekGE", "SeekGE", "SeekLT", "SeekLT", "First", "Last", "SeekPrefixGE", "SetBounds"}
 			if io.batch == nil {
@@ -913,6 +964,7 @@ func (r *Run) stepReopen() {
 	fmv := r.Cfg.FMV
 	r.opts = MakeOptions(r.Cfg, r.fs, r.Ev)
 	r.opts.FormatMajorVersion = pebble.FormatMajorVersion(fmv)
+	r.attachFileCache()
 	r.opts.EnsureDefaults()
 	db, err := pebble.Open("db", r.opts)
 	if err != nil {
@@ -1064,13 +1116,21 @@ func (r *Run) stepExcise() {
 
 func (r *Run) stepEFOS() {
 	if len(r.efos) < 2 && (len(r.efos) == 0 || r.rng.IntN(3) == 0) {
-		n := 1 + r.rng.IntN(2)
+		// the API requires sorted, non-overlapping ranges
 		var rgs [][2]string
 		var krs []pebble.KeyRange
-		for i := 0; i < n; i++ {
-			a, b := r.randRange()
-			rgs = append(rgs, [2]string{a, b})
-			krs = append(krs, pebble.KeyRange{Start: []byte(a), End: []byte(b)})
+		a, b := r.randRange()
+		rgs = append(rgs, [2]string{a, b})
+		if r.rng.IntN(2) == 0 {
+			c, d := r.randRange()
+			if model.Cmp(b, c) <= 0 {
+				rgs = append(rgs, [2]string{c, d})
+			} else if model.Cmp(d, a) <= 0 {
+				rgs = [][2]string{{c, d}, {a, b}}
+			}
+		}
+		for _, rg := range rgs {
+			krs = append(krs, pebble.KeyRange{Start: []byte(rg[0]), End: []byte(rg[1])})
 		}
 		e := &efosObj{s: r.db.NewEventuallyFileOnlySnapshot(krs), st: r.M.Clone(), ranges: rgs, born: r.step}
 		r.efos = append(r.efos, e)
